@@ -35,6 +35,10 @@ def gen_case(rng, thorough, force=None):
     tiled = sorted(rng.shuffle([0, 1, 2])[:ntile])
     mx = 3 if ntile == 3 else (5 if thorough else 4)
     c["shape"] = [int(rng.randint(1, mx)) for _ in range(3)]
+    if c["shape"] == [1, 1, 1]:
+        # fdtdx cannot allocate a volume of one single cell (StopIteration in core/jax/sharding.py, with or without
+        # periodic faces): not a statement of this property, so the base cell is never 1x1x1
+        c["shape"][2] = 2
     c["m"] = [int(rng.choice([2, 3]) if ax in tiled else 1) for ax in range(3)]
     if ntile == 3 and not thorough:
         c["m"][rng.randint(0, 2)] = 2
